@@ -7,6 +7,7 @@ SELECT = (r'^bluetoe::details::(characteristic_index_mapping|service_index_mappi
           r'|^bluetoe::details::(collect_attributes|value_filter|services_by_group|uuid_filter)::')
 UNITS = lambda u: u in ('w_inst_att',) or u.startswith('t_attribute_handle') or u.startswith('t_service')
 D = 'bluetoe::details::'
+EXACT = ('layout-witness', 'include-witness')   # verdicts computed from the meaning of the code (compiler / folding / symbolic terms): not gated by the golden structure
 META = {
     'level': 'compiler-evaluated layout witness over a family of 7 server declarations (plain, fixed handles with gaps, attribute_handles<> triples, CCCDs, descriptors, secondary services, several include '
              'declarations, included services with fixed handles): every service and characteristic mapping constant the repository computes is non-zero, increasing, gives every attribute an own handle, the '
